@@ -382,7 +382,7 @@ def check_regular(ctx, frame, arrays, label, with_bounds=False):
         rec.cls('irregular_' + cause)
         ctx.viol_once(
             site,
-            'irregular_subframe',
+            'irregular_sliver' if sliver else 'irregular_subframe',
             f'{label}: subframe {k} produced by the library is not is_regular(): time={t.tolist()} wavelength={lam.tolist()}',
             cause=cause,
             sliver=bool(sliver),
